@@ -323,6 +323,12 @@ def run(ctx):
     texts += [rnd_string(rng) for _ in range(500 if q else 50000)]
     texts += [malformed(rng) for _ in range(1000 if q else 150000)]
     texts += ["[" * d + "1" + "]" * d for d in (1, 64, 126, 127, 128, 129, 500)]
+    # nesting by objects, and by objects and arrays in turn, up to the parser's limit (a limit that counts one kind of container twice, or only
+    # one kind, shows between 43 and 127 levels)
+    for d in (43, 63, 64, 65, 85, 86, 100, 126, 127, 128):
+        texts.append('{"a":' * d + "1" + "}" * d)
+        texts.append("".join('{"k":' if i % 2 == 0 else "[" for i in range(d)) + "1.5" + "".join("}" if i % 2 == 0 else "]" for i in reversed(range(d))))
+        texts.append("".join("[" if i % 3 else '{"":' for i in range(d)) + '"x"' + "".join("]" if i % 3 else "}" for i in reversed(range(d))))
     if getattr(ctx, "replay", None):
         texts = [ctx.replay["case"]]
     lines = [C.hexs(t) for t in texts]
